@@ -187,7 +187,7 @@ def coq_eval_shards(prefix: str, header: str, shards, jobs=8, timeout=1200):
 
 def parse_triples(text: str):
     """Parse '= ([(i, m, s); ...], skipped, checked)' printed by run_cases."""
-    flat = " ".join(text.split())
+    flat = " ".join(text.split()).replace("%N", "").replace("%nat", "")
     m = re.search(r"= \((\[.*?\]), (\d+), (\d+)\)\s*:", flat)
     if not m:
         return None
